@@ -22,6 +22,8 @@ def seeded_table():
                 out = 'VIOLATION no-failing-input-found (a tie broke)'
             else:
                 out = 'MISSED'
+            if meta.get('status_note'):
+                out += ' - NOTE: ' + meta['status_note']
             rows.append(f'| {sid} | {meta.get("property")} | {needs} | {prop} | {out} |')
     return '\n'.join(rows)
 
